@@ -78,6 +78,9 @@ def real_terminal(server, out_sz=64, in_sz=64):
         server.request(payload)
 
     async def mbx_recv():
+        if getattr(server, "noise", 0):
+            server.noise -= 1
+            return MBXType.EOE, b"unrelated mail"
         return MBXType.COE, server.pending
     t.mbx_send, t.mbx_recv = mbx_send, mbx_recv
     return t
@@ -113,7 +116,32 @@ def witness_write(data, sub, out_sz=64):
                       f"transfer completed: {srv.done}, messages longer than the mailbox: {t.too_long}"}
 
 
+def native_read(name, conc, notes):
+    """the real sdo_read against the executable server: values of several
+    lengths, with and without subindex, with and without unrelated mail"""
+    bad = []
+    for value in (b"", b"abc", bytes(range(20)), bytes(range(60))):
+        for sub in (1, None):
+            for noise in (0, 1):
+                for in_sz in (32, 64):
+                    srv = NativeServer(value, in_sz=in_sz)
+                    srv.noise = noise
+                    t = real_terminal(srv, in_sz=in_sz)
+                    try:
+                        got = asyncio.run(t.sdo_read(0x8000, sub))
+                        if got != value:
+                            bad.append((len(value), sub, noise, in_sz, f"returned {got!r}"))
+                    except Exception as e:      # noqa
+                        bad.append((len(value), sub, noise, in_sz, f"{type(e).__name__}: {e}"))
+    return {"inputs": {"tried": "value lengths 0/3/20/60 x subindex 1/None x unrelated mail 0/1 x mbx_in_sz 32/64"},
+            "reproduced": True if bad else None,
+            "detail": f"real Terminal.sdo_read against a conformant SDO server; failing (len, subindex, unrelated "
+                      f"mail, mbx_in_sz, outcome): {bad[:4]} ({len(bad)} of 32 cases)"}
+
+
 def native(name, conc, notes):
+    if "sdo_read" in name:
+        return native_read(name, conc, notes)
     return {"inputs": conc, "reproduced": None, "detail": "no native harness for this clause"}
 
 
@@ -130,10 +158,9 @@ def run(tier, seed):
     S.install()
     try:
         api.verify(S.read_contract(True), rep, replay=native)
+        api.verify(S.read_contract(False), rep, replay=native)
         api.verify(S.write_contract("expedited"), rep, replay=native)
         for contract, region, witness in (
-                (S.read_contract(False), "sdo_read: the value does not fit the initiate response (segmented upload)",
-                 witness_read_segmented),
                 (S.write_contract("normal"), "sdo_write: normal download (more than 4 bytes, or complete access)",
                  lambda: witness_write(b"abcdef", 1)),
                 (S.write_contract("segmented"), "sdo_write: the value does not fit the initiate request (segmented download)",
